@@ -67,6 +67,11 @@ CHECKS.update({
         text="A dialer task (dialer_select_proto, V1 or V1Lazy) and a listener task (listener_select_proto) run over a simulated carrier with seeded fragmentation down to single bytes, short writes and Pending under the seeded scheduler, each immediately followed by application traffic; differential variants put rust-libp2p's multistream-select 0.13 on either side; the message-based variant drives WebRtcDialerState against webrtc_listener_negotiate with seeded message groupings. Preference lists and listener sets are drawn from a pool built to collide (prefixes of each other, long names). Oracle: both sides terminate; if the sets intersect both report the dialer's most preferred protocol that the listener supports, otherwise both fail; every application byte written after negotiation arrives unchanged and none is consumed by the negotiation, even when the payload looks like negotiation frames.", ref="DESIGN.md §5 C03"),
 })
 
+CHECKS.update({
+    "C10": dict(engine="nodesim", technique="deterministic simulation: operation histories against a whole litep2p node on a simulated network; snapshot-transition oracle over the address book read through a guarded accessor",
+        text="A complete litep2p node executes seeded histories of add_known_address (generated address shapes incl. missing / foreign / duplicate peer ids, unspecified and own addresses, unsupported stacks, up to 200 distinct addresses against the bound of 64, rediscovery of scored addresses) and dial(peer) whose connection attempts are resolved by the simulated network (refused, black-holed, connected to real peer nodes). After every step the stored addresses with scores are read through the guarded accessor (hook H4) and compared with the previous snapshot: only offered, well-formed, correctly attributed, non-local, dialable addresses appear; never more than 64; a displaced address had a minimal score and not a higher one than the newcomer; adding never changes the score of a stored address; a dial re-scores exactly the addresses it used (100 / -100) and nothing else; the order of SimNet connection attempts (max_parallel_dials=1) is non-increasing in score, without duplicates, limited by the outbound capacity, never skipping a better address; NoAddressAvailable iff nothing is stored.", ref="DESIGN.md §5 C10"),
+})
+
 NOT_BUILT = {
 }
 
